@@ -231,6 +231,47 @@ class Evaluator:
     def _e_JoinedStr(self, e):
         return Opaque("fstring")
 
+    # comprehensions over concrete (finite) iterables
+    def _comp(self, generators, emit):
+        out = []
+
+        def rec(i):
+            if i == len(generators):
+                out.append(emit())
+                return
+            g = generators[i]
+            it = self.eval(g.iter)
+            if isinstance(it, Opaque):
+                raise Unknown("comprehension over an opaque iterable")
+            try:
+                items = list(it)
+            except TypeError:
+                raise Unknown("comprehension over a non-iterable")
+            saved = dict(self.env)
+            for x in items:
+                self.assign(g.target, x)
+                if all(self.truth(c) for c in g.ifs):
+                    rec(i + 1)
+            self.env = saved
+
+        rec(0)
+        return out
+
+    def _e_ListComp(self, e):
+        return self._comp(e.generators, lambda: self.eval(e.elt))
+
+    def _e_GeneratorExp(self, e):
+        return self._comp(e.generators, lambda: self.eval(e.elt))
+
+    def _e_SetComp(self, e):
+        return set(self._comp(e.generators, lambda: self.eval(e.elt)))
+
+    def _e_DictComp(self, e):
+        return dict(self._comp(e.generators, lambda: (self.eval(e.key), self.eval(e.value))))
+
+    def _e_Set(self, e):
+        return {self.eval(x) for x in e.elts}
+
     def _e_Call(self, e):
         if self.on_call is not None:
             v = self.on_call(self, e)
@@ -241,7 +282,7 @@ class Evaluator:
             v = self.eval(e.args[0])
             table = {"bool": bool, "int": int, "float": float, "str": str, "list": list, "dict": dict, "tuple": tuple, "set": set}
             names = [x.id for x in (e.args[1].elts if isinstance(e.args[1], ast.Tuple) else [e.args[1]]) if isinstance(x, ast.Name)]
-            if not isinstance(v, Opaque) and names and all(n in table for n in names) and type(v) in table.values():
+            if not isinstance(v, Opaque) and names and all(n in table for n in names) and (v is None or type(v) in table.values()):
                 return isinstance(v, tuple(table[n] for n in names))
             raise Unknown("isinstance on a value outside the finite domain")
         if isinstance(f, ast.Name):
@@ -275,6 +316,10 @@ class Evaluator:
                     raise Unknown("isinstance")
                 if f.id == "sum":
                     return sum(args[0])
+                if f.id == "sorted" and len(args) == 1:
+                    return sorted(args[0])
+                if f.id in ("list", "tuple", "set", "dict", "OrderedDict"):
+                    return {"list": list, "tuple": tuple, "set": set, "dict": dict, "OrderedDict": dict}[f.id](*args)
                 if f.id == "str":
                     return str(args[0])
             except (TypeError, ValueError):
